@@ -53,7 +53,7 @@ REQUIRED = ["histories", "operations", "open_log_checks", "index_ops", "negative
             "chain_negative_indices", "chain_empty_members", "populations_rows_checked", "populations_slices_checked",
             "to_population_checked", "map_checked", "map_verbose_checked", "map_then_read_audited", "listing_order_injected",
             "large_populations", "roots_spelled_differently", "slices_of_sliced_populations",
-            "populations_without_intersection",
+            "populations_without_intersection", "extension_given_explicitly",
             "transform_checked", "tap_load", "symbolic_link_entries",
             "audit_file_opens"]
 FLOOR = {"quick": 250, "thorough": 20000}
@@ -97,7 +97,8 @@ def make_layout(rng, root, *, nfiles=None, marker_base=0, small=False):
             for j in range(n):
                 f.write(f"{j + 1} {1 if j == 0 else 3} {marker} {j} 0 1 {j if j else -1}\n")
         files[rel] = (n, marker)
-    for name in ("notes.txt", "sub/readme.md", "cell.swc.bak", "x.eswc"):
+    for name in ("notes.txt", "sub/readme.md", "cell.swc.bak", "x.eswc", "README", "sub/.gitkeep",
+                 ".DS_Store", "Makefile"):
         if rng.random() < 0.4:
             p = os.path.join(root, name)
             os.makedirs(os.path.dirname(p), exist_ok=True)
@@ -160,7 +161,12 @@ def check_history(ctx, case, tmp):
     log = OpenLog(root)
     with warnings.catch_warnings():
         warnings.simplefilter("ignore")
-        pop = Population.from_swc(_spell(ctx, root, np.random.default_rng(case["seed"] + 5)))
+        rt_ = _spell(ctx, root, np.random.default_rng(case["seed"] + 5))
+        how = case["seed"] % 3  # the extension left to its default, by keyword, by position
+        pop = Population.from_swc(rt_) if how == 0 else (
+            Population.from_swc(rt_, ext=".swc") if how == 1 else Population.from_swc(rt_, ".swc"))
+        if how:
+            ctx.count("extension_given_explicitly")
     listing = [os.path.relpath(p, root) for p in Population.find_swcs(root)]
     if sorted(listing) != sorted(files):
         return ctx.violation("listing-wrong", f"find_swcs lists {sorted(listing)[:5]}..., the "
